@@ -29,26 +29,49 @@ def scale_store_rules(prog, res: Result, cr: CaseRunner):
         if not stores:
             return ("scale never stored", "no store to _equiv on a success path")
         v = stores[-1][3]
-        reads = [e for e in st.effects if e[0] == "num_elem"]
         if isinstance(v, Num):
-            rf = st.norm(v.rf)
             if v.kind in ("int", "anyrat", "float", "bool"):
                 return ("scale may be stored as a plain int", f"stored {v!r}: the definition's numeric element keeps "
                         f"the type it was written with, and int / int between two such scales yields a float")
-            if rf.is_one():
-                if reads and not all(r[1] for r in reads):
-                    return ("scale from non-normalised definition", "num_elem read on a term that is not normalised")
-                if not reads:
-                    return ("definition's numeric factor ignored", "scale 1 stored without consulting the definition")
-                return None
-            if any(a[0] == "nu" for a in rf.atoms()) and len(rf.atoms()) == 1 and rf.equals(RF.atom(next(iter(rf.atoms())))):
-                if not all(r[1] for r in reads):
-                    return ("scale from non-normalised definition", "num_elem read on a term that is not normalised")
-                return None
-            return ("scale is not the definition's numeric factor", f"stored {rf!r}")
+            return None         # its value is decided for the types with a reference unit below
         return ("scale is not numeric for a defined unit", f"stored {v!r}")
 
     cr.run("R01.3", mk, "definition=term", setup_term, judge_term, flag_kinds=())
+
+    # the same for a type known to have a reference unit, decided on values: the stored scale is the value of the
+    # definition over the reference unit, whatever the code does to get there
+    DEF = RF.atom(("mu", "defn"))
+
+    def setup_term_ref(fl):
+        def setup(c: Ctx):
+            c.new_type("T", **FLAVORS[fl])
+            d = TermV(DEF, {"T": (1, 0)})
+            return [c.cls("T"), StrV(None, "symbol"), StrV(None, "name"), d], {}
+        return setup
+
+    def judge_term_ref(o):
+        if o.kind == "raise":
+            if o.exc.name in ("ValueError", "AssertionError"):
+                return None
+            return (exc_sig(o), "unexpected exception in unit creation")
+        st = o.state
+        stores = [e for e in st.effects if e[0] == "setattr" and e[2] == "_equiv"]
+        if not stores:
+            return ("scale never stored", "no store to _equiv on a success path")
+        v = stores[-1][3]
+        if not isinstance(v, Num):
+            return ("scale is not numeric for a defined unit", f"stored {v!r}")
+        want = st.norm(DEF / RF.atom(("rho", st.tfind("T"))))
+        got = st.norm(v.rf)
+        if not got.equals(want):
+            return ("scale is not the value of the definition in reference units",
+                    f"stored {got!r}; the definition denotes {want!r} reference units")
+        if v.kind in ("int", "float", "bool"):
+            return ("scale may be stored as a plain int", f"stored {v!r}")
+        return None
+    for fl in ("ref", "ref+quantum"):
+        cr.run("R01.3", mk, f"definition=term, type with reference unit [{fl}]", setup_term_ref(fl), judge_term_ref,
+               flag_kinds=(), min_paths=2)
 
     def setup_none(c: Ctx):
         c.new_type("T")
@@ -181,5 +204,5 @@ def run(prog, tier) -> Result:
 
     res.require("R01.1", 6)
     res.require("R01.2", 9)
-    res.require("R01.3", 4)
+    res.require("R01.3", 6)
     return res
